@@ -85,6 +85,15 @@ def harness(tier, seed):
                     m[i][j] = rng.randint(1, mx)
                     if sym:
                         m[j][i] = m[i][j]
+        if rng.random() < 0.25 and mx >= 10 ** 4:
+            # symmetric up to one unit in a single large entry: asymmetric, although every tolerance-based comparison says
+            # otherwise - written as a symmetric file it would lose that entry
+            sym = True
+            for i in range(n):
+                for j in range(i):
+                    m[i][j] = m[j][i] = rng.randint(mx // 2, mx)
+            a_ = rng.randrange(1, n)
+            m[a_][0] += 1
         # the asymmetric generator may hit a symmetric matrix by chance (n = 2, small values): the expected flag is a property
         # of the matrix, not of how it was generated
         sym = all(m[a][b] == m[b][a] for a in range(n) for b in range(n))
